@@ -11,6 +11,7 @@ import (
 	"fmt"
 	"go/ast"
 	"go/constant"
+	"go/token"
 	"go/types"
 	"os"
 	"path/filepath"
@@ -80,6 +81,12 @@ func (f *flat) body(fd *ast.FuncDecl) {
 					f.ints = append(f.ints, tv.Value.ExactString())
 				}
 			}
+		case *ast.UnaryExpr:
+			if x.Op == token.ARROW { // a channel receive: "<-"
+				f.calls = append(f.calls, "<-")
+			}
+		case *ast.SendStmt:
+			f.calls = append(f.calls, "send")
 		case *ast.CallExpr:
 			if fun, ok := x.Fun.(*ast.SelectorExpr); ok {
 				fieldOf := func(e ast.Expr) string {
